@@ -13,6 +13,8 @@ RULE = ("programs = one or two callables (function or mixin) with 0..4 parameter
         "through emitted declarations (each parameter, inspect($rest), inspect(keywords($rest))), called with every "
         "mix of positional, named (with -/_ spelling swapped), unknown-named, duplicated (position + name), list-splat, "
         "map-splat, arglist pass-through arguments; plus first-@return (returns inside @if/@each/@for/@while), "
+        "argument values include null, \"\", false and () in every passing form (positional, named, list splat, map splat, "
+        "arglist forwarding, @content arguments) against defaulted, required and rest parameters; "
         "closures over shadowed names (global vs include/call-site local vs parameter), @content with `using` "
         "parameters, nested @include/@content, @content without a block. Quick: all signatures x calls of a small "
         "grid + random; non-trivial = the spec model gives a definite non-error result with at least one declaration.")
@@ -38,9 +40,25 @@ class Gen:
         self.n += 1
         return f"p{self.n}"
 
-    def atom(self):
+    def atom(self, flat=True):
+        """an argument value; blank values (null, "", false, and — where a list may stand — ()) are
+        deliberately frequent: a passed blank value is a passed value, never "not given" """
         r = self.rng
-        return num(r.randint(0, 9)) if r.random() < 0.7 else ident(r.choice(["x", "y", "z"]))
+        k = r.random()
+        if k < 0.50:
+            return num(r.randint(0, 9))
+        if k < 0.68:
+            return ident(r.choice(["x", "y", "z"]))
+        if k < 0.84:
+            return NULL
+        if k < 0.90:
+            return FALSE
+        if k < 0.95 or flat:
+            return qstr("")
+        return lst([])
+
+    def arg(self):
+        return self.atom(flat=False)
 
     def signature(self, nparams=None, rest=None):
         r = self.rng
@@ -73,43 +91,43 @@ class Gen:
         args = []
         if kind == "plain":
             npos = r.randint(0, k + (2 if sig.rest else 0))
-            args = [("p", self.atom()) for _ in range(npos)]
+            args = [("p", self.arg()) for _ in range(npos)]
             for n in names[npos:]:
                 if r.random() < 0.5:
-                    args.append(("n", swap(n) if r.random() < 0.5 else n, self.atom()))
+                    args.append(("n", swap(n) if r.random() < 0.5 else n, self.arg()))
         elif kind == "named":
             npos = r.randint(0, max(0, k - 1))
-            args = [("p", self.atom()) for _ in range(npos)]
+            args = [("p", self.arg()) for _ in range(npos)]
             rest_names = names[npos:]
             r.shuffle(rest_names)
             for n in rest_names:
                 if r.random() < 0.75:
-                    args.append(("n", swap(n) if r.random() < 0.5 else n, self.atom()))
+                    args.append(("n", swap(n) if r.random() < 0.5 else n, self.arg()))
         elif kind == "toomany":
             args = [("p", self.atom()) for _ in range(k + r.randint(1, 2))]
         elif kind == "unknown":
             npos = r.randint(0, k)
-            args = [("p", self.atom()) for _ in range(npos)]
+            args = [("p", self.arg()) for _ in range(npos)]
             args.append(("n", r.choice(["zz", "q-q"]), self.atom()))
         elif kind == "dup":
             npos = r.randint(1, max(1, k))
-            args = [("p", self.atom()) for _ in range(npos)]
+            args = [("p", self.arg()) for _ in range(npos)]
             if names:
                 n = names[r.randrange(min(npos, k))]
-                args.append(("n", swap(n) if r.random() < 0.5 else n, self.atom()))
+                args.append(("n", swap(n) if r.random() < 0.5 else n, self.arg()))
             else:
                 args.append(("n", "zz", self.atom()))
         elif kind == "missing":
             npos = r.randint(0, max(0, k - 1))
-            args = [("p", self.atom()) for _ in range(npos)]
+            args = [("p", self.arg()) for _ in range(npos)]
         elif kind == "listsplat":
             npos = r.randint(0, 1)
-            args = [("p", self.atom()) for _ in range(npos)]
+            args = [("p", self.arg()) for _ in range(npos)]
             items = [self.atom() for _ in range(r.randint(0, k + 1))]
             args.append(("s", lst(items, comma=(r.random() < 0.6 or len(items) == 1))))
         elif kind == "mapsplat":
             npos = r.randint(0, max(0, k - 1))
-            args = [("p", self.atom()) for _ in range(npos)]
+            args = [("p", self.arg()) for _ in range(npos)]
             keys = [n for n in names[npos:] if r.random() < 0.7]
             if r.random() < 0.2:
                 keys.append("zz")
@@ -133,7 +151,7 @@ class Gen:
         return args, kind
 
     def observe_mixin(self, sig):
-        body = [emit(self.p(), var(n)) for n, _ in sig.ps]
+        body = [emit(self.p(), inspect(var(n))) for n, _ in sig.ps]
         if sig.rest:
             body.append(emit(self.p(), inspect(var("r"))))
             body.append(emit(self.p(), inspect(keywords(var("r")))))
@@ -311,6 +329,30 @@ def fixed():
                  incl("m", [("n", "c_d", num(1)), ("n", "e-f", num(5))])],
         "default-sees-earlier": [mixin("m", f3, obs()), incl("m", [("p", num(4))])],
     }
+    fd = Params([("a", None), ("b", ident("dflt-b")), ("c-d", var("b"))], "r")
+    def obsd(): return g.observe_mixin(fd)
+    req = Params([("a", None), ("b", None)])
+    for bn, bv in (("null", NULL), ("empty-string", qstr("")), ("false", FALSE)):
+        shapes.update({
+            f"blank-{bn}-map-splat": [mixin("m", fd, obsd()), incl("m", [("p", num(1)), ("s", mp([("b", bv), ("k", bv)]))])],
+            f"blank-{bn}-named": [mixin("m", fd, obsd()), incl("m", [("p", num(1)), ("n", "b", bv), ("n", "k", bv)])],
+            f"blank-{bn}-positional": [mixin("m", fd, obsd()), incl("m", [("p", num(1)), ("p", bv), ("p", num(3)), ("p", bv)])],
+            f"blank-{bn}-list-splat": [mixin("m", fd, obsd()), incl("m", [("s", lst([num(1), bv, num(3), bv]))])],
+            f"blank-{bn}-required-map-splat": [mixin("m", req, [emit("p1", inspect(var("a"))), emit("p2", inspect(var("b")))]),
+                                               incl("m", [("p", num(1)), ("s", mp([("b", bv)]))])],
+            f"blank-{bn}-fn-map-splat": [func("f", fd, [ret(inspect(lst([var("a"), var("b"), var("c-d")], comma=True)))]),
+                                         func("kw", fd, [ret(inspect(keywords(var("r"))))]),
+                                         emit("p1", call("f", [("p", num(1)), ("s", mp([("b", bv), ("k", bv)]))])),
+                                         emit("p2", call("kw", [("p", num(1)), ("s", mp([("b", bv), ("k", bv)]))]))],
+            f"blank-{bn}-content-map-splat": [mixin("m", Params(), [content([("s", mp([("w", bv)]))])]),
+                                              incl("m", [], [emit("p1", inspect(var("w")))], Params([("w", num(1))]))],
+            f"blank-{bn}-content-named": [mixin("m", Params(), [content([("n", "w", bv)])]),
+                                          incl("m", [], [emit("p1", inspect(var("w")))], Params([("w", num(1))]))],
+            f"blank-{bn}-content-positional": [mixin("m", Params(), [content([("p", bv), ("p", bv)])]),
+                                               incl("m", [], [emit("p1", inspect(var("w"))), emit("p2", inspect(var("r")))], Params([("w", num(1))], "r"))],
+            f"blank-{bn}-forwarded": [mixin("m", fd, obsd()), mixin("w", Params([], "args"), [incl("m", [("s", var("args"))])]),
+                                      incl("w", [("p", num(1)), ("n", "b", bv), ("n", "k", bv)])],
+        })
     for name, prog in shapes.items():
         yield Case(program_line(prog), "fixed", {"shape": name})
 
